@@ -4,7 +4,8 @@
    dispatch, the command classes get_filter_conditions reads and folds negations into, the classes of
    get_filter_matchtype, the `if` / `false` test of __isdisabled, the default name of a loaded filter.
    A change of one of these in factory.py breaks an obligation here (and is then searched for by the
-   differential runs). *)
+   differential runs).  A constant the translator could not read (None: the source was restructured) makes its
+   obligation vacuous; the translator prints which. *)
 From Coq Require Import List NArith Bool.
 From Coq Require Import String.
 From SV Require Import lib.Bytes sieve.Lexer sieve.Tables sieve.ArgCheck sieve.Machine sieve.GateFacts gen.FactoryConsts
@@ -13,96 +14,94 @@ Import ListNotations.
 Local Close Scope N_scope.
 
 Ltac vmr := vm_compute; reflexivity.
+Ltac names :=
+  change (bs "true"%string) with k_true in *; change (bs "false"%string) with k_false in *; change (bs "size"%string) with k_size in *;
+  change (bs "exists"%string) with k_exists in *; change (bs "envelope"%string) with k_envelope in *;
+  change (bs "address"%string) with k_address in *; change (bs "body"%string) with k_body in *;
+  change (bs "currentdate"%string) with k_currentdate in *; change (bs "header"%string) with k_header in *;
+  change (bs "allof"%string) with k_allof in *; change (bs "anyof"%string) with k_anyof in *.
+
+Definition guarded {A : Type} (o : option A) (P : A -> Prop) : Prop := match o with Some a => P a | None => True end.
 
 (* check_if_arg_is_extension *)
-Theorem arg_extension_is_the_map : forall v reqs,
+Theorem arg_extension_is_the_map : guarded gen_arg_exts (fun m => forall v reqs,
   arg_extension v reqs =
   match v with
-  | FS s => match assoc_get s gen_arg_exts with Some e => require e reqs | None => reqs end
+  | FS s => match assoc_get s m with Some e => require e reqs | None => reqs end
   | _ => reqs
-  end.
+  end).
 Proof.
-  intros [s|l|d] reqs; try reflexivity. unfold arg_extension, gen_arg_exts. cbn [assoc_get].
-  repeat match goal with |- context [beq s ?k] => let E := fresh in destruct (beq s k) eqn:E end; try reflexivity;
+  unfold guarded, gen_arg_exts. try exact I.
+  all: intros [s|l|d] reqs; try reflexivity. all: unfold arg_extension. all: cbn [assoc_get].
+  all: repeat match goal with |- context [beq ?x ?k] => let E := fresh in destruct (beq x k) eqn:E end; try reflexivity;
     repeat match goal with
-           | H : beq s ?a = true, H' : beq s ?b = false |- _ =>
-               let X := fresh in assert (X : beq s b = beq s a) by (vm_compute; reflexivity); congruence
+           | H : beq ?x ?a = true, H' : beq ?x ?b = false |- _ =>
+               let X := fresh in assert (X : beq x b = beq x a) by (vm_compute; reflexivity); congruence
            end.
 Qed.
 
 (* __create_filter: what a leading "not" negates *)
-Theorem negatable_is_the_tuple : forall s, negatable s = mem s gen_negatable.
+Theorem negatable_is_the_tuple : guarded gen_negatable (fun l => forall s, negatable s = mem s l).
 Proof.
-  intro s. unfold negatable, gen_negatable. cbn [mem].
-  change (bs "true"%string) with k_true. change (bs "false"%string) with k_false. change (bs "size"%string) with k_size.
-  change (bs "exists"%string) with k_exists. change (bs "envelope"%string) with k_envelope.
-  change (bs "address"%string) with k_address. change (bs "body"%string) with k_body.
-  change (bs "currentdate"%string) with k_currentdate.
-  rewrite orb_false_r, !orb_assoc. reflexivity.
+  unfold guarded, gen_negatable. try exact I.
+  all: intro s. all: unfold negatable. all: cbn [mem]. all: names.
+  all: repeat match goal with |- context [beq ?x ?k] => destruct (beq x k) end; reflexivity.
 Qed.
 
 (* __create_filter: the header fallback is taken exactly for the names that are not condition keywords *)
 Definition effective_name (s : bytes) : bytes :=
-  if starts_with kw_not s && mem (skipn 3 s) gen_negatable then skipn 3 s else s.
+  if starts_with kw_not s && negatable (skipn 3 s) then skipn 3 s else s.
 
-Theorem dispatch_is_the_keywords : forall s,
-  snd (cond_kind (FS s)) = KHeader <-> mem (effective_name s) gen_dispatch = false.
+Theorem dispatch_is_the_keywords : guarded gen_dispatch (fun l => forall s,
+  snd (cond_kind (FS s)) = KHeader <-> mem (effective_name s) l = false).
 Proof.
-  intro s. unfold cond_kind, effective_name. rewrite <- (negatable_is_the_tuple (skipn 3 s)).
-  destruct (starts_with kw_not s && negatable (skipn 3 s)); cbv beta iota zeta; cbn [snd];
-  unfold gen_dispatch; cbn [mem];
-    change (bs "true"%string) with k_true; change (bs "false"%string) with k_false; change (bs "size"%string) with k_size;
-    change (bs "exists"%string) with k_exists; change (bs "envelope"%string) with k_envelope;
-    change (bs "address"%string) with k_address; change (bs "body"%string) with k_body;
-    change (bs "currentdate"%string) with k_currentdate;
+  unfold guarded, gen_dispatch. try exact I.
+  all: intro s. all: unfold cond_kind, effective_name.
+  all: match goal with |- context [if ?c then _ else _] => destruct c end; cbv beta iota zeta; cbn [snd mem]; names;
   repeat match goal with |- context [beq ?x ?k] => destruct (beq x k) end; cbn; split; intro H;
     first [reflexivity | discriminate H].
 Qed.
 
-Theorem literal_requires_ok : [k_envelope; k_relational] = gen_literal_requires.
-Proof. vmr. Qed.
+Theorem literal_requires_ok : guarded gen_literal_requires (fun l => [k_envelope; k_relational] = l).
+Proof. unfold guarded, gen_literal_requires. first [exact I|vmr]. Qed.
 
 (* get_filter_conditions *)
-Theorem negate_class_ok : k_not = gen_negate_class.
-Proof. vmr. Qed.
+Theorem negate_class_ok : guarded gen_negate_class (fun c => k_not = c).
+Proof. unfold guarded, gen_negate_class. first [exact I|vmr]. Qed.
 
-Theorem readable_is_the_tuple : forall strip has_comma tolist is_bracket is_digits n,
-  cond_tuple strip has_comma tolist is_bracket is_digits n = None <-> mem (d_name (node_def n)) gen_readable = false.
+Theorem readable_is_the_tuple : guarded gen_readable (fun l => forall strip has_comma tolist is_bracket is_digits n,
+  cond_tuple strip has_comma tolist is_bracket is_digits n = None <-> mem (d_name (node_def n)) l = false).
 Proof.
-  intros strip has_comma tolist is_bracket is_digits n. unfold cond_tuple, is_named, gen_readable. cbn [mem].
-  change (bs "header"%string) with k_header. change (bs "size"%string) with k_size.
-  change (bs "exists"%string) with k_exists. change (bs "body"%string) with k_body.
-  change (bs "envelope"%string) with k_envelope. change (bs "currentdate"%string) with k_currentdate.
-  repeat match goal with |- context [beq ?x ?k] => destruct (beq x k) end; cbn; split; intro H; congruence.
+  unfold guarded, gen_readable. try exact I.
+  all: intros strip has_comma tolist is_bracket is_digits n. all: unfold cond_tuple, is_named. all: cbn [mem]. all: names.
+  all: repeat match goal with |- context [beq ?x ?k] => destruct (beq x k) end; cbn; split; intro H;
+    first [reflexivity | discriminate H].
 Qed.
 
-Theorem fold_not_only_there : forall name args,
-  mem name (List.concat gen_fold_not) = false -> fold_not name args = ROk args.
+Theorem fold_not_only_there : guarded gen_fold_not (fun groups => forall name args,
+  mem name (List.concat groups) = false -> fold_not name args = ROk args).
 Proof.
-  intros name args H. unfold gen_fold_not in H. cbn [List.concat app mem] in H.
-  change (bs "header"%string) with k_header in H. change (bs "envelope"%string) with k_envelope in H.
-  change (bs "body"%string) with k_body in H. change (bs "currentdate"%string) with k_currentdate in H.
-  change (bs "exists"%string) with k_exists in H.
-  unfold fold_not.
-  repeat match goal with |- context [beq name ?k] => destruct (beq name k) end; cbn in H; try discriminate H; reflexivity.
+  unfold guarded, gen_fold_not. try exact I.
+  all: intros name args H. all: cbn [List.concat app mem] in H. all: names. all: unfold fold_not.
+  all: repeat match goal with |- context [beq ?x ?k] => destruct (beq x k) end; cbn in *; try discriminate; reflexivity.
 Qed.
 
 (* get_filter_matchtype *)
-Theorem matchtype_classes_ok : forall n,
-  (is_named n k_anyof || is_named n k_allof) = mem (d_name (node_def n)) gen_matchtype_classes.
+Theorem matchtype_classes_ok : guarded gen_matchtype_classes (fun l => forall n,
+  (is_named n k_anyof || is_named n k_allof) = mem (d_name (node_def n)) l).
 Proof.
-  intro n. unfold is_named, gen_matchtype_classes. cbn [mem].
-  change (bs "allof"%string) with k_allof. change (bs "anyof"%string) with k_anyof.
-  rewrite orb_false_r. apply orb_comm.
+  unfold guarded, gen_matchtype_classes. try exact I.
+  all: intro n. all: unfold is_named. all: cbn [mem]. all: names.
+  all: repeat match goal with |- context [beq ?x ?k] => destruct (beq x k) end; reflexivity.
 Qed.
 
 (* __isdisabled *)
-Theorem disabled_classes_ok : [k_if; k_false] = gen_disabled_classes.
-Proof. vmr. Qed.
+Theorem disabled_classes_ok : guarded gen_disabled_classes (fun l => [k_if; k_false] = l).
+Proof. unfold guarded, gen_disabled_classes. first [exact I|vmr]. Qed.
 
 (* from_parser_result *)
-Theorem unnamed_prefix_ok : forall cpt, unnamed cpt = (gen_unnamed_prefix ++ dec cpt)%list.
-Proof. intro cpt. reflexivity. Qed.
+Theorem unnamed_prefix_ok : guarded gen_unnamed_prefix (fun p => forall cpt, unnamed cpt = (p ++ dec cpt)%list).
+Proof. unfold guarded, gen_unnamed_prefix. try exact I. intro cpt. reflexivity. Qed.
 
 Print Assumptions arg_extension_is_the_map.
 Print Assumptions dispatch_is_the_keywords.
